@@ -119,14 +119,17 @@ fn case_set(rt: &tokio::runtime::Runtime, c: &Conf, req: &Req, stats: &mut Stats
     }
 }
 
-fn case_drain(rt: &tokio::runtime::Runtime, c: &Conf, req: &Req, stats: &mut Stats) -> Toks {
+/// None: the drain took too long to be meaningful (leases of the first clients may have expired:
+/// the minimum lease is 300 s); such a run is discarded, not reported.
+fn case_drain(rt: &tokio::runtime::Runtime, c: &Conf, req: &Req, stats: &mut Stats) -> Option<Toks> {
+    let started = std::time::Instant::now();
     let mut t = header(2, c, req);
     let yaml = render_yaml(c);
     let shared = match load(rt, &yaml) {
         Ok(Some(s)) => s,
         _ => {
             t.n(0).n(9);
-            return t;
+            return Some(t);
         }
     };
     let conf = rt.block_on(shared.read());
@@ -162,7 +165,11 @@ fn case_drain(rt: &tokio::runtime::Runtime, c: &Conf, req: &Req, stats: &mut Sta
         t.n(y as u64);
     }
     t.n(end);
-    t
+    if started.elapsed().as_secs() >= 120 {
+        stats.bump("drain.discarded_too_slow");
+        return None;
+    }
+    Some(t)
 }
 
 /// the layout of the manual's example: a pool on the receiving subnet with per-host reservations
@@ -234,7 +241,7 @@ fn replay_line(rt: &tokio::runtime::Runtime, toks: &[u64], stats: &mut Stats) ->
     let req = get_req(&mut c)?;
     match kind {
         1 => Some(case_set(rt, &conf, &req, stats).0),
-        2 => Some(case_drain(rt, &conf, &req, stats)),
+        2 => case_drain(rt, &conf, &req, stats),
         _ => None,
     }
 }
@@ -318,9 +325,14 @@ pub fn run(args: &Args, out: &mut dyn Write) -> Stats {
             writeln!(out, "{}", t.0).unwrap();
             i += 1;
             if let Some(n) = size {
-                if n <= DRAIN_LIMIT && r.chance(1, 2) {
-                    writeln!(out, "{}", case_drain(&rt, &c, &req, &mut stats).0).unwrap();
-                    i += 1;
+                // every request of a drain expands all `addresses` prefixes again: with a /8../13 a
+                // drain would outlast the leases it is counting
+                let cheap = c.addresses.iter().all(|a| !matches!(a, Pfx::P4(_, l) if *l < 14));
+                if n <= DRAIN_LIMIT && cheap && r.chance(1, 2) {
+                    if let Some(t) = case_drain(&rt, &c, &req, &mut stats) {
+                        writeln!(out, "{}", t.0).unwrap();
+                        i += 1;
+                    }
                 }
             }
         }
